@@ -13,7 +13,8 @@ import (
 	"pgregory.net/rapid"
 )
 
-var names = []string{"a", "b", "c", "d"}
+// names: two plain ones and spellings that differ from them only by surrounding white space (a name is the exact string)
+var names = []string{"a", "b", "c", "d", "a ", "b\n", " c"}
 var strategyChoices = append(append([]string{}, lab.Strategies...), "fastest", "", "ROUND_ROBIN")
 
 func hostOfAddr(addr string) string { return strings.TrimPrefix(addr, "http://") }
@@ -30,7 +31,7 @@ func hasName(model []inst, n string) bool {
 func clientAddr(k int) string { return fmt.Sprintf("10.%d.%d.%d:4%03d", k%5, (k/5)%250, (k*7)%250, k%1000) }
 
 func TestC11Sequential(t *testing.T) {
-	sub := lab.Sub("reconfig-sequential", "rapid histories over the admin API handlers {add(name from a 4-name alphabet, address valid/unparsable/empty, weight -2..6 or, one in eight, 100/256/257/999/5000), remove(name incl. absent), set_strategy(5 known + unknown/empty/wrong-case), "+
+	sub := lab.Sub("reconfig-sequential", "rapid histories over the admin API handlers {add(name from {a, b, c, d, 'a ', 'b\\n', ' c'}, address valid/unparsable/empty, weight -2..6 or, one in eight, 100/256/257/999/5000), remove(name incl. absent), set_strategy(5 known + unknown/empty/wrong-case), "+
 		"eject, list, request, hold (request parked in a backend), release, eligibility burst} against a reference model (multiset of name/address/effective weight/health + strategy name); "+
 		"duplicate add may answer 201 (listed twice) or 4xx (unchanged); after remove no entry of that name may be listed or served; failed operations change nothing; strategy switch keeps the listing identical; parked requests finish normally; "+
 		"non-trivial = history with a repeated name, or a remove followed by traffic, or a strategy switch with an ejected backend")
